@@ -27,6 +27,15 @@ func (yf *yamlFormatter) generate(
 
 	forceBefore := false
 
+	// The additional-properties block reads the raw map.
+	if structType, ok := declType.Type.(*codegen.StructType); ok {
+		for _, f := range structType.Fields {
+			if f.Name == "AdditionalProperties" {
+				forceBefore = true
+			}
+		}
+	}
+
 	for _, v := range validators {
 		desc := v.desc()
 		if desc.beforeJSONUnmarshal {
